@@ -17,8 +17,8 @@ ID = "C11"
 LEVEL = "exploration"
 RULE = ("a case is (scheme, valid configuration, small valid database, sequence of client operations drawn from {create with an "
         "invalid configuration (unknown primitive / missing field / bad key length / unknown scheme), create again on the existing "
-        "sid, create-service with the service's own stored configuration (same salt), generate key, encrypt database, upload configuration, upload index, search}); every operation is run with a client "
-        "Service freshly loaded from disk and closed afterwards, as the CLI does, against a live in-process server. Oracle = "
+        "sid, create-service with the service's own stored configuration (same salt), create-service with a configuration file that does not exist, generate key, encrypt database, upload configuration, upload index, search}); every operation is run with a client "
+        "Service freshly loaded from disk and closed afterwards, as the CLI does, against a live in-process server; one case in three (and part of the fixed sweep) runs every operation through the command functions of frontend.client.commands (what run_client.py calls) in one process, reading the outcome from what the command prints. Oracle = "
         "5-flag reference model (created, config uploaded, key created, db encrypted, db uploaded) with the documented "
         "prerequisite relation: accepted/refused must agree; the persisted service_meta flags equal the model after every step; "
         "a refused operation leaves every file of the service (client and server side) byte-identical; the key file never "
@@ -83,6 +83,12 @@ class Run:
         self.flags = 0
         self.sid = None
         self.db = S.build_db(case["db"])
+        self.cli = bool(case.get("cli"))
+        if self.cli:
+            # the command layer takes keywords as text: same posting lists under one-letter keywords
+            self.db = {bytes([97 + i]): v for i, v in enumerate(self.db.values())}
+            self.tmp = None
+            self.n_names = 0
         self.key_bytes = None
         self.refused = 0
         self.accepted = 0
@@ -117,10 +123,89 @@ class Run:
             elif kb != self.key_bytes:
                 self.fail("after %r the key file changed" % (step,), "key_changed")
 
+    async def cli_call(self, fn, *a, **kw):
+        import io
+        buf = io.StringIO()
+        with contextlib.redirect_stdout(buf):
+            r = fn(*a, **kw)
+            if asyncio.iscoroutine(r):
+                await asyncio.wait_for(r, 60)
+        return buf.getvalue()
+
+    def cli_file(self, name, obj):
+        import json
+        import tempfile
+        if self.tmp is None:
+            self.tmp = tempfile.mkdtemp(prefix="ssepy-c11cli-")
+        path = os.path.join(self.tmp, name)
+        with open(path, "w", encoding="utf-8") as fh:
+            json.dump(obj, fh)
+        return path
+
+    async def cli_op(self, step):
+        """the operation through frontend.client.commands (the functions behind run_client.py); returns (refused?, output)"""
+        import frontend.client.commands as commands
+        from frontend.client.services import service_name_handler as snh
+        kind = step[0]
+        if kind in ("create", "create_invalid"):
+            cfg = copy.deepcopy(self.case["cfg_final"]) if kind == "create" else invalid_config(self.scheme, step[1])
+            self.n_names += 1
+            name = "svc" if kind == "create" else "bad%d" % self.n_names
+            out = await self.cli_call(commands.create_service, self.cli_file("cfg%d.json" % self.n_names, cfg), name)
+            if kind == "create" and "error" not in out.lower():
+                self.sid = snh.get_service_id_by_sname("svc")
+        elif kind in ("create_again", "create_same_salt"):
+            # create-service with the service's own stored configuration under a new name: redoes the completed create step
+            import json
+            with open(os.path.join(self.ns.client_dir, self.sid, "config.json")) as fh:
+                stored = json.load(fh)
+            self.n_names += 1
+            name = "again%d" % self.n_names
+            out = await self.cli_call(commands.create_service, self.cli_file("cfg%d.json" % self.n_names, stored), name)
+            if "error" not in out.lower() and snh.read_service_mapping().get(name) not in (None, self.sid):
+                out = "error (for this service): a different service was created; this service was not touched\n" + out
+        elif kind == "create_missing_file":
+            self.n_names += 1
+            out = await self.cli_call(commands.create_service, os.path.join(self.tmp or "/nonexistent", "no-such-config-%d.json" % self.n_names),
+                                      "missing%d" % self.n_names)
+        elif kind == "genkey":
+            out = await self.cli_call(commands.generate_key, sname="svc")
+        elif kind == "encrypt":
+            jsondb = {k.decode(): [x.hex() for x in v] for k, v in self.db.items()}
+            out = await self.cli_call(commands.encrypt_database, self.cli_file("db.json", jsondb), sname="svc")
+        elif kind == "upload_config":
+            out = await self.cli_call(commands.upload_config, sname="svc")
+        elif kind == "upload_edb":
+            out = await self.cli_call(commands.upload_encrypted_database, sname="svc")
+        elif kind == "search":
+            w = list(self.db.keys())[step[1] % len(self.db)]
+            out = await self.cli_call(commands.search, w.decode(), "hex", sname="svc")
+        else:
+            raise ValueError(kind)
+        ok = "error" not in out.lower() and ("successfully" in out or "The result is" in out)
+        return (not ok), out
+
     async def op(self, step):
         kind = step[0]
         self.trace.append(step)
         f = self.flags
+        if self.cli and kind in ("create_invalid", "create"):
+            before = self.client_dirs()
+            refused, out = await self.cli_op(step)
+            if kind == "create":
+                if refused:
+                    self.fail("the create-service command refused a valid configuration: %r" % out.strip()[-300:], "create_refused")
+                self.flags = CC
+                self.check_persisted(step)
+                return
+            if not refused:
+                raise Violation("%s: the create-service command accepted a configuration the scheme cannot be instantiated with (%s) | "
+                                "operations so far: %r" % (self.scheme, step[1], self.trace), "invalid_config_accepted")
+            if self.client_dirs() != before:
+                self.fail("a refused create-service command (%s) left a service directory behind" % step[1], "invalid_config_left_directory")
+            if self.sid is not None:
+                self.check_persisted(step)
+            return
         if kind == "create_invalid":
             before = self.client_dirs()
             cfg = invalid_config(self.scheme, step[1])
@@ -146,6 +231,7 @@ class Run:
         expect_ok = {
             "create_again": False,
             "create_same_salt": False,
+            "create_missing_file": False,
             "genkey": bool(f & CC) and not f & KC,
             "encrypt": bool(f & CC) and bool(f & KC) and not f & DE,
             "upload_config": bool(f & CC) and not f & CU,
@@ -153,12 +239,24 @@ class Run:
             "search": bool(f & DU),
         }[kind]
         before = snapshot(self.dirs())
-        svc = self.Service(self.sid)
+        svc = None if self.cli else self.Service(self.sid)
         raised = None
         result = []
         try:
             try:
-                if kind == "create_again":
+                if self.cli:
+                    refused, out = await self.cli_op(step)
+                    if refused:
+                        raised = RuntimeError(out.strip()[-300:])
+                    elif kind == "search":
+                        import ast
+                        line = next((l for l in out.splitlines() if "The result is" in l), None)
+                        w = list(self.db.keys())[step[1] % len(self.db)]
+                        result.append([bytes.fromhex(h) for h in ast.literal_eval(line.split("The result is", 1)[1].strip().rstrip("."))])
+                elif kind == "create_missing_file":
+                    from toolkit.config_manager import read_config
+                    self.Service().handle_create_config(read_config("/nonexistent/no-such-config.json"))
+                elif kind == "create_again":
                     svc.handle_create_config(copy.deepcopy(self.case["cfg_final"]))
                 elif kind == "create_same_salt":
                     # create-service with the service's own stored configuration (same salt, hence the same sid): it would
@@ -188,7 +286,7 @@ class Run:
             except Exception as e:
                 raised = e
         finally:
-            if kind in ("upload_config", "upload_edb", "search"):
+            if svc is not None and kind in ("upload_config", "upload_edb", "search"):
                 with contextlib.suppress(Exception):
                     await svc.close_service()
         await asyncio.sleep(0)  # let the server finish its cleanup of the closed connection
@@ -219,7 +317,7 @@ class Run:
                 desc = S.DESCS[self.scheme]
                 if len(result) != 1:
                     self.fail("search delivered %d results" % len(result), "search_callback_count")
-                got = svc.sse_module_loader.SSEResult.deserialize(result[0], svc.config_object).get_result_list()
+                got = (set(result[0]) if desc.result_is_set else result[0]) if self.cli else svc.sse_module_loader.SSEResult.deserialize(result[0], svc.config_object).get_result_list()
                 if not S.result_matches(desc, got, self.db, w):
                     self.fail("search for %r returned %d ids, expected %d" % (w, len(got), len(self.db[w])), "wrong_search_result")
         self.check_persisted(step)
@@ -247,6 +345,9 @@ async def run_async(case):
         return run
     finally:
         await srv.stop()
+        if getattr(run, "tmp", None):
+            import shutil
+            shutil.rmtree(run.tmp, ignore_errors=True)
 
 
 def run_case(case):
@@ -269,7 +370,8 @@ def st_case(draw, schemes, max_ops):
         cfg["param_dictionary_size"] = 16
     spec = draw(S.st_db_spec(desc, cfg, max_total=20, max_kw=3))
     op = st.one_of(
-        st.sampled_from([["genkey"], ["encrypt"], ["upload_config"], ["upload_edb"], ["create_again"], ["create_same_salt"]]),
+        st.sampled_from([["genkey"], ["encrypt"], ["upload_config"], ["upload_edb"], ["create_again"], ["create_same_salt"],
+                         ["create_missing_file"]]),
         st.tuples(st.just("search"), st.integers(0, 5)).map(list),
         st.tuples(st.just("create_invalid"), st.sampled_from(INVALID_KINDS)).map(list))
     pre = draw(st.lists(st.tuples(st.just("create_invalid"), st.sampled_from(INVALID_KINDS)).map(list), max_size=2))
@@ -284,7 +386,10 @@ def st_case(draw, schemes, max_ops):
         ops = pre + [["create"]] + seq
     else:
         ops = pre + [["create"]] + draw(st.lists(op, min_size=1, max_size=max_ops))
-    return {"scheme": scheme, "cfg": cfg, "db": spec, "ops": ops, "seed": draw(st.integers(0, 2 ** 32))}
+    case = {"scheme": scheme, "cfg": cfg, "db": spec, "ops": ops, "seed": draw(st.integers(0, 2 ** 32))}
+    if draw(st.integers(0, 2)) == 0:
+        case["cli"] = True  # every operation through frontend.client.commands, outcome read from what the command prints
+    return case
 
 
 def body(case, res):
@@ -299,7 +404,8 @@ def body(case, res):
             cl.append("has_invalid_create")
         if run and run.flags & DU:
             cl.append("reached_uploaded")
-        res.count([case["scheme"], case["ops"]], nt, cl, sample={"scheme": case["scheme"], "ops": case["ops"]})
+        cl.append("via:commands" if case.get("cli") else "via:Service")
+        res.count([case["scheme"], case["ops"], bool(case.get("cli"))], nt, cl, sample={"scheme": case["scheme"], "ops": case["ops"]})
 
 
 def exhaustive_case(scheme, word):
@@ -343,14 +449,19 @@ def run_shard(spec, seed, tier):
                     c["cfg"]["param_dictionary_size"] = 16
                 cases.append(c)
             for seq in ([["create"], ["create_same_salt"], ["genkey"]],
+                        [["create"], ["genkey"], ["create_missing_file"], ["encrypt"], ["create_invalid", "unknown_ske"], ["upload_config"],
+                         ["create_missing_file"], ["upload_edb"], ["create_missing_file"], ["search", 0]],
                         [["create"], ["genkey"], ["create_same_salt"], ["genkey"], ["encrypt"], ["upload_config"], ["upload_edb"],
                          ["create_same_salt"], ["genkey"], ["search", 0]]):
-                c = exhaustive_case(scheme, ())
-                c["ops"] = seq
-                if scheme == "CGKO06.SSE1":
-                    c["cfg"]["param_s"] = 64
-                    c["cfg"]["param_dictionary_size"] = 16
-                cases.append(c)
+                for cli in (False, True):
+                    c = exhaustive_case(scheme, ())
+                    c["ops"] = seq
+                    if cli:
+                        c["cli"] = True
+                    if scheme == "CGKO06.SSE1":
+                        c["cfg"]["param_s"] = 64
+                        c["cfg"]["param_dictionary_size"] = 16
+                    cases.append(c)
         res.extra["invalid_sweep"] = "every invalid-configuration kind x every scheme, and create-with-the-stored-config sequences (complete)"
     res.extra["enumerated_sequences"] = len(cases)
     nvio = 0
